@@ -11,6 +11,7 @@ func TestVerifSim(t *testing.T) {
 		Name: "metasima",
 		Props: map[string]simkit.PropFunc{
 			"C15": runC15,
+			"C17": runC17,
 		},
 	})
 }
